@@ -171,6 +171,88 @@ fn src_case(out: &mut Out, s: &str, class: &str) -> Option<Result<Source, String
     r
 }
 
+// ---------------------------------------------------------------- literal airports (audit e, F1)
+/// Large airports whose position is common knowledge: (ICAO, IATA, latitude, longitude).  LITERALS of the
+/// harness — read once from the accepted airports.json and checked against an atlas — so that an oracle
+/// exists which does not move when `airports.json` or its deserialisation moves.
+const LITERAL_AIRPORTS: &[(&str, &str, f64, f64)] = &[
+    ("LFPG", "CDG", 49.0125, 2.5558),
+    ("EGLL", "LHR", 51.4716, -0.4671),
+    ("EHAM", "AMS", 52.3086, 4.7639),
+    ("EDDF", "FRA", 50.0378, 8.5558),
+    ("LFBO", "TLS", 43.6281, 1.3673),
+    ("KJFK", "JFK", 40.6398, -73.7789),
+    ("KLAX", "LAX", 33.9425, -118.4070),
+    ("RJTT", "HND", 35.5523, 139.7796),
+    ("YSSY", "SYD", -33.9461, 151.1772),
+    ("OMDB", "DXB", 25.2528, 55.3644),
+    ("LSZH", "ZRH", 47.4647, 8.5492),
+    ("LEMD", "MAD", 40.4887, -3.5700),
+    ("LIRF", "FCO", 41.8045, 12.2508),
+    ("KORD", "ORD", 41.9781, -87.9058),
+    ("CYYZ", "YYZ", 43.6806, -79.6270),
+    ("SBGR", "GRU", -23.4320, -46.4695),
+    ("FAOR", "JNB", -26.1391, 28.2460),
+    ("VHHH", "HKG", 22.3096, 113.9162),
+    ("WSSS", "SIN", 1.3502, 103.9944),
+    ("ZBAA", "PEK", 40.0842, 116.5927),
+];
+/// degrees; a swapped lat/lon, a sign error or a neighbouring airport is far outside
+const LITERAL_TOL: f64 = 0.05;
+
+fn literal_of(code: &str) -> Option<(f64, f64)> {
+    LITERAL_AIRPORTS.iter().find(|(i, a, _, _)| *i == code || *a == code).map(|(_, _, la, lo)| (*la, *lo))
+}
+/// `None` = not a literal code or within tolerance; `Some(detail)` = the `airport-literal` failure
+fn judge_literal(code: &str, got: Option<(f64, f64)>) -> Option<String> {
+    let (la, lo) = literal_of(code)?;
+    match got {
+        Some((x, y)) if (x - la).abs() <= LITERAL_TOL && (y - lo).abs() <= LITERAL_TOL => None,
+        Some((x, y)) => Some(format!("code {code} is at {la} {lo} (literal of the harness, ±{LITERAL_TOL}) but resolved to {x} {y}")),
+        None => Some(format!("code {code} is at {la} {lo} (literal of the harness) but did not resolve to a position")),
+    }
+}
+
+/// `lit <code>`: the code as the reference of a source specification (`…@<code>` and `…?<code>`)
+fn literal_ref(out: &mut Out, code: &str) {
+    for text in [format!("tcp://h:1@{code}"), format!("udp://1.2.3.4:30005?{code}"), format!(":4003@{code}")] {
+        let got = match src_case(out, &text, "literal-airport") {
+            None => continue, // reported as source-panic
+            Some(Ok(src)) => src.reference.map(|p| (p.latitude, p.longitude)),
+            Some(Err(_)) => None,
+        };
+        out.stat("literal:src");
+        if let Some(d) = judge_literal(code, got) {
+            out.fail("airport-literal", &format!("lit {code}"), &format!("{text:?}: {d}"));
+        }
+    }
+}
+
+/// `table`: the airport table as the code sees it (after deserialisation) is a table of places on Earth
+/// with one row per code.  Once per run.
+fn airport_table(out: &mut Out) {
+    let mut icao = std::collections::BTreeMap::new();
+    let mut iata = std::collections::BTreeMap::new();
+    for a in AIRPORTS.iter() {
+        if !(a.lat >= -90.0 && a.lat <= 90.0 && a.lon >= -180.0 && a.lon <= 180.0) {
+            out.fail("airport-table", "table", &format!("{} ({}): latitude {} longitude {} is not a position", a.icao, a.name, a.lat, a.lon));
+        }
+        *icao.entry(a.icao.clone()).or_insert(0u32) += 1;
+        *iata.entry(a.iata.clone()).or_insert(0u32) += 1;
+    }
+    // the accepted airports.json has no duplicated ICAO code and no duplicated IATA code (measured when this
+    // oracle was written); `airport-code` above relies on it
+    for (what, m) in [("ICAO", &icao), ("IATA", &iata)] {
+        for (c, n) in m.iter().filter(|(_, n)| **n > 1) {
+            out.fail("airport-table", "table", &format!("{what} code {c:?} occurs {n} times in the airport table"));
+        }
+    }
+    if AIRPORTS.len() < 1000 {
+        out.fail("airport-table", "table", &format!("the airport table has {} rows only", AIRPORTS.len()));
+    }
+    out.stat("airport-table:checked");
+}
+
 fn run_pos(s: &str) -> Option<Result<Position, String>> {
     guarded(|| Position::from_str(s))
 }
@@ -202,6 +284,15 @@ fn pos_case(out: &mut Out, s: &str, class: &str) -> Option<Result<Position, Stri
                 &format!("code {s} is {} at {} {} but resolved to {other:?}", a.name, a.lat, a.lon),
             ),
             None => {}
+        }
+    }
+    // … and a well-known airport is where everybody knows it is (literal of the harness, audit e F1)
+    if literal_of(s).is_some() {
+        out.stat("literal:pos");
+        if let Some(res) = &r {
+            if let Some(d) = judge_literal(s, res.as_ref().ok().map(|p| (p.latitude, p.longitude))) {
+                out.fail("airport-literal", &format!("pos {}", enc(s)), &d);
+            }
         }
     }
     r
@@ -395,6 +486,17 @@ fn gen_latlon(rng: &mut Rng) -> (String, f64, f64) {
     (format!("{a},{b}"), x, y)
 }
 
+/// a row of the table; one time in eight the row of a literal airport (judged by `airport-literal` as well)
+fn pick_airport(rng: &mut Rng) -> &'static rs1090::data::airports::Airport {
+    if rng.chance(1, 8) {
+        let code = rng.pick(LITERAL_AIRPORTS).0;
+        if let Some(a) = AIRPORTS.iter().find(|a| a.icao == code) {
+            return a;
+        }
+    }
+    rng.pick(&AIRPORTS[..])
+}
+
 fn gen_spec(rng: &mut Rng) -> Spec {
     let scheme = *rng.pick(&["tcp", "tcp", "udp", "ws", "rtlsdr"]);
     let host = if scheme == "rtlsdr" && rng.chance(1, 2) {
@@ -422,11 +524,11 @@ fn gen_spec(rng: &mut Rng) -> Spec {
     let reference = match rng.below(4) {
         0 => None,
         1 => {
-            let a = rng.pick(&AIRPORTS[..]);
+            let a = pick_airport(rng);
             Some((a.icao.clone(), a.lat, a.lon))
         }
         2 => {
-            let a = rng.pick(&AIRPORTS[..]);
+            let a = pick_airport(rng);
             Some((a.iata.clone(), a.lat, a.lon))
         }
         _ => Some(gen_latlon(rng)),
@@ -473,6 +575,11 @@ fn wellformed(out: &mut Out, sp: &Spec, batch: &mut Vec<(String, u64)>) {
         (None, None) => {}
         (Some((_, la, lo)), Some(p)) if same_f(*la, p.latitude) && same_f(*lo, p.longitude) => {}
         (want, got) => out.fail("wellformed-reference", &input, &format!("{text:?}: reference {got:?}, want {want:?}")),
+    }
+    if let Some((code, _, _)) = &sp.reference {
+        if let Some(d) = judge_literal(code, src.reference.as_ref().map(|p| (p.latitude, p.longitude))) {
+            out.fail("airport-literal", &input, &format!("{text:?}: {d}"));
+        }
     }
     out.stat(match &sp.reference {
         None => "ref:none",
@@ -787,6 +894,8 @@ pub fn one(out: &mut Out, line: &str) {
             (Ok(n), Some(sfx)) => port_only(out, n, &sfx),
             _ => out.notes.push(format!("bad replay line: {line}")),
         },
+        ["lit", code] => literal_ref(out, code),
+        ["table"] => airport_table(out),
         // plain text convenience: `text tcp://h:1@LFBO`
         ["text", s] => {
             src_case(out, s, "replay");
@@ -826,6 +935,14 @@ pub fn run(out: &mut Out, rng: &mut Rng, thorough: bool) {
         pos_case(out, &a.iata, "iata");
     }
     out.exhaustive.push(format!("all {} ICAO and IATA codes of airports.json as reference", AIRPORTS.len()));
+    // 2b. the table itself, and the literal airports alone and as the reference of a source (audit e F1)
+    airport_table(out);
+    for (icao, iata, _, _) in LITERAL_AIRPORTS {
+        for code in [icao, iata] {
+            pos_case(out, code, "literal-airport");
+            literal_ref(out, code);
+        }
+    }
     // no field of the table contains a comma: a `lat,lon` text can never be taken for an airport
     if AIRPORTS.iter().any(|a| [&a.icao, &a.iata, &a.city, &a.name, &a.country].iter().any(|f| f.contains(','))) {
         out.notes.push("an airport field contains a comma: lat,lon references may match an airport".into());
